@@ -6,7 +6,6 @@ import (
 	"fmt"
 	"net"
 	"os"
-	"strings"
 	"sync"
 	"testing"
 	"testing/synctest"
@@ -328,7 +327,11 @@ func TestFastPathAgreesWithUserspace(t *testing.T) {
 		{"100.64.0.0/14", "100.64.0.1", []string{"4.3.2.1", "8.7.6.5"}, time.Second, net.IPv4(100, 64, 0, 1)},
 		{"10.9.8.0/30", "10.9.8.1", []string{"1.2.3.4"}, 7 * 24 * time.Hour, net.IPv4(203, 0, 113, 77)},
 	}
-	srvMAC := net.HardwareAddr{0x02, 0x00, 0x5e, 0x10, 0x20, 0x30}
+	ifaces, err := pickInterfaces()
+	if err != nil {
+		run.Inconclusive("interfaces", err.Error())
+		return
+	}
 	// scripted matrix first: (renewal option-82 shape) x (how the lease ends) x (pool), relayed client with circuit-id
 	type forced struct {
 		op  int // value of x below
@@ -399,7 +402,9 @@ func TestFastPathAgreesWithUserspace(t *testing.T) {
 					}
 				}
 			}
-			ld, _ := bngebpf.NewLoader("lo", zap.NewNop())
+			zeroServerConfig(k) // a fresh loader starts from a zeroed server_config (array map: not covered by the loop above)
+			ifc := ifaces[h%2] // the server runs on an interface with / without a hardware address in turn
+			ld, _ := bngebpf.NewLoader(ifc.name, zap.NewNop())
 			ld.VerifSetMaps(k.Coll.Maps)
 			pm := dhcp.NewPoolManager(ld, nil)
 			dp, err := dhcp.NewPool(dhcp.PoolConfig{ID: uint32(1 + h%3), Name: "p", Network: pc.network, Gateway: pc.gateway, DNSServers: pc.dns, LeaseTime: pc.lease})
@@ -407,11 +412,18 @@ func TestFastPathAgreesWithUserspace(t *testing.T) {
 				t.Fatal(err)
 			}
 			pm.AddPool(dp)
-			srv, err := dhcp.NewServer(dhcp.ServerConfig{Interface: "lo", ServerIP: pc.serverIP}, ld, pm, zap.NewNop())
+			srv, err := dhcp.NewServer(dhcp.ServerConfig{Interface: ifc.name, ServerIP: pc.serverIP}, ld, pm, zap.NewNop())
 			if err != nil {
 				t.Fatal(err)
 			}
-			ld.SetServerConfig(srvMAC, pc.serverIP, 2) // what dhcp.Server.Start does after creating the listener
+			// the fast path is configured by dhcp.Server.Start itself (listener, interface lookup, SetServerConfig with
+			// the interface's own hardware address), not by the harness
+			if err := startConfigured(srv); err != nil {
+				run.Inconclusive("server-start", fmt.Sprintf("dhcp.Server.Start on %s: %v", ifc.name, err))
+				return
+			}
+			synctest.Wait()
+			run.Count("histories_server_started_on_"+ifc.kind, 1)
 			conn := &capConn{}
 			peer := &net.UDPAddr{IP: net.IPv4bcast, Port: 68}
 			nClients := 2 + rng.IntN(3)
@@ -736,62 +748,13 @@ func TestFastPathAgreesWithUserspace(t *testing.T) {
 						case 3: // XDP_TX
 							run.Count("verdict_tx", 1)
 							run.Nontrivial(fmt.Sprintf("%d|%s|%v|%v", h%len(pools), ps.name, c.relay != nil, c.cid != nil))
-							if c.bound == nil {
-								why := c.ended
-								if why == "" {
-									why = "never-bound"
-								}
-								key := "mac"
-								if ps.relayed && c.cid != nil {
-									key = "mac-or-circuit-id"
-								}
-								run.Violation("dhcp.Server+bpf/dhcp_fastpath.c", "no-answer-without-binding", why+"/cached-by-"+key, fmt.Sprintf("the fast path answered %s for client %s whose lease was %s in userspace", ps.name, c.mac, why), wit())
+							if !judgeTx(c, ps, frame, res.Out, wit) {
 								continue
 							}
-							rp, bad := parseReply(frame, res.Out, ps, c)
-							if bad != "" {
-								cls := strings.Fields(bad)[0] + "-" + strings.Fields(bad)[1]
-								run.Violation("bpf/dhcp_fastpath.c", "reply-well-formed", cls+"/"+shapeClass(ps), bad, wit())
-								continue
+							run.Count("replies_compared_on_"+ifc.kind, 1)
+							if !pc.serverIP.Equal(net.ParseIP(pc.gateway)) {
+								run.Count("replies_compared_server_ip_not_gateway_on_"+ifc.kind, 1)
 							}
-							wantType := byte(2)
-							if ps.msg == 3 {
-								wantType = 5
-							}
-							if rp.msgType != wantType {
-								run.Violation("bpf/dhcp_fastpath.c", "reply-well-formed", "wrong-message-type", fmt.Sprintf("message type %d for request type %d", rp.msgType, ps.msg), wit())
-							}
-							ref := c.ref
-							if ref == nil {
-								run.Count("tx_without_reference", 1)
-								continue
-							}
-							cmp := func(field string, got, want net.IP) {
-								if !ipEq(got, want) {
-									run.Violation("dhcp.Server+bpf/dhcp_fastpath.c", "same-values-as-userspace", field, fmt.Sprintf("fast path sends %s=%v, userspace sends %v to this client", field, got, want), wit())
-								}
-							}
-							cmp("yiaddr", rp.yiaddr, ref.YourIPAddr.To4())
-							cmp("server-identifier", rp.serverID, ref.ServerIdentifier().To4())
-							cmp("subnet-mask", rp.mask, net.IP(ref.SubnetMask()))
-							var rr net.IP
-							if rs := ref.Router(); len(rs) > 0 {
-								rr = rs[0].To4()
-							}
-							cmp("router", rp.router, rr)
-							udns := ref.DNS()
-							if len(udns) != len(rp.dns) {
-								run.Violation("dhcp.Server+bpf/dhcp_fastpath.c", "same-values-as-userspace", "dns-count", fmt.Sprintf("fast path sends %d DNS servers %v, userspace %d %v", len(rp.dns), rp.dns, len(udns), udns), wit())
-							} else {
-								for i := range udns {
-									cmp("dns", rp.dns[i], udns[i].To4())
-								}
-							}
-							ul := uint32(ref.IPAddressLeaseTime(0) / time.Second)
-							if !rp.hasLease || rp.lease != ul {
-								run.Violation("dhcp.Server+bpf/dhcp_fastpath.c", "same-values-as-userspace", "lease-time", fmt.Sprintf("fast path lease %d (present=%v), userspace %d", rp.lease, rp.hasLease, ul), wit())
-							}
-							run.Count("replies_compared", 1)
 							// in-kernel cross-check of the same probe (clock-independent unless the lease could expire)
 							if ps.clock == 0 {
 								kv, kout, kerr := k.Run("dhcp_fastpath_prog", frame)
@@ -813,6 +776,12 @@ func TestFastPathAgreesWithUserspace(t *testing.T) {
 			}
 		})
 	}
+	// the fast path configuration written by Server.Start was looked at on both kinds of interface, also where the
+	// configured server address is not the pool's gateway (the only place a lost server_config shows)
+	run.Floor("replies_compared_on_iface_with_hwaddr", 1000)
+	run.Floor("replies_compared_on_iface_without_hwaddr", 1000)
+	run.Floor("replies_compared_server_ip_not_gateway_on_iface_with_hwaddr", 200)
+	run.Floor("replies_compared_server_ip_not_gateway_on_iface_without_hwaddr", 200)
 }
 
 func shapeClass(ps probeShape) string {
